@@ -212,6 +212,8 @@ def run(ctx):
                 if rnd.random() < 0.3:  # long lists (more than reprlib's default of six items)
                     v = rnd.choice(spec["inputs"])
                     lo_, hi_ = (v["minimum"] if math.isfinite(v["minimum"]) else -5.0), (v["maximum"] if math.isfinite(v["maximum"]) else 5.0)
+                    if not hi_ > lo_:
+                        hi_ = lo_ + 1.0
                     v["terms"] += [E.G.shape_term(rnd, f"x{v['name']}{j}", lo_, hi_, d=d) for j in range(7)]
                 for o in spec["outputs"]:
                     if rnd.random() < 0.15:
